@@ -53,3 +53,25 @@ Theorem c03_rewrite_chains_bounded : ltac:(let t := type of c03m_chain_bounded i
 Proof. exact c03m_chain_bounded. Qed.
 Print Assumptions c03_rewrite_chains_bounded.
 About c03m_no_cycles_partial.
+
+(* the structural mutators (EraseNode, ReplaceByChild, MergeWithChildren, SortChildren, BinaryReduction, LetElimination;
+   Model/CoreRw.v): every step at any position strictly decreases (size, disorder) lexicographically; no chain of them
+   returns to its start, none is a no-op, chains are bounded by size^3 + size^2 (Props/CoreRw.v) *)
+From DD Require Import Props.CoreRw.
+Theorem c03_no_cycles_structural : ltac:(let t := type of no_cycles_structural in exact t).
+Proof. exact no_cycles_structural. Qed.
+Print Assumptions c03_no_cycles_structural.
+
+Theorem c03_structural_chains_bounded : ltac:(let t := type of core_chain_bounded in exact t).
+Proof. exact core_chain_bounded. Qed.
+Print Assumptions c03_structural_chains_bounded.
+
+(* SimplifySymbolNames: every proposed name is strictly shorter (a chain of renamings of one symbol is finite) and never
+   a constant or a reserved word (F24, F30) *)
+Theorem c03_symbol_names_shorter : ltac:(let t := type of core_ssn_shorter in exact t).
+Proof. exact core_ssn_shorter. Qed.
+Print Assumptions c03_symbol_names_shorter.
+
+Theorem c03_symbol_names_plain : ltac:(let t := type of core_ssn_plain in exact t).
+Proof. exact core_ssn_plain. Qed.
+Print Assumptions c03_symbol_names_plain.
